@@ -12,7 +12,8 @@ RULE = ("each generated message (1..4 units, queries writing 1..4 data elements 
         "(so exhaustion strikes at every write); compared with the model; independently of the model: bounded output is a prefix "
         "of the unbounded output, identical result when it fits, -225 when it does not (handlers that return finish()), never a "
         "panic; the global allocator's call count during Node::run must be 0 for every ArrayVec run (handlers, logs and scripts "
-        "are pre-allocated).  non-trivial = a bounded run that overflowed")
+        "are pre-allocated); the library's own scpi-contrib handlers (common commands, STATus, SYSTem:ERRor incl. :ALL? on a "
+        "filled queue) run histories with pre-reserved response buffer and error queue under the same counter.  non-trivial = a bounded run that overflowed")
 ASSUMPTIONS = ["the scripted handlers do not allocate (pre-reserved log/arena); heap allocation is MEASURED per explored message, not proved (DESIGN 5, C11)",
                "ArrayVec capacities instantiated in the harness: 0..80, 96, 128, 256, 1024"]
 MISMATCH_WHY = "bounded-buffer behaviour differs from the proved model (C11)"
@@ -28,10 +29,12 @@ def treegen_types():
 
 
 def corpus():
-    sub = [("L", b"STR", False, 1), ("L", b"NUM", False, 2), ("L", b"HDR", False, 3), ("L", b"THREE", False, 4), ("L", b"ERRS", False, 5), ("L", b"QUOT", False, 6)]
+    sub = [("L", b"STR", False, 1), ("L", b"NUM", False, 2), ("L", b"HDR", False, 3), ("L", b"THREE", False, 4), ("L", b"ERRS", False, 5), ("L", b"QUOT", False, 6), ("L", b"BLK", False, 7), ("L", b"HH", False, 8)]
     sc = {1: ([], ["ds706f7461746f"]), 2: ([], ["di1", "di2"]), 3: ([], ["h4c4f4e47484541444552", "di1"]), 4: ([], ["ds706f7461746f", "di0", "db1"]),
           5: ([], ["dEp-200x6578", "dEc7:6f6f7073x6122", "dEp-113", "dEc9:78"]),           # error items, with and without extended text
-          6: ([], ["ds2261222222", "ds22", "ds612262"])}                                       # strings made of quotes
+          6: ([], ["ds2261222222", "ds22", "ds612262"]),                                       # strings made of quotes
+          7: ([], ["da61623b"]),                                                               # a block whose last byte is the unit separator
+          8: ([], ["h434f4e466967757265", "h56", "di5"])}                                      # two header levels
     out = []
     # typed parameters of every family through the library's own next_data::<T>: allocation-free (implementation only)
     tsub = [("L", b"P", False, 1), ("L", b"Q", False, 2)]
@@ -39,7 +42,7 @@ def corpus():
         tsc = {1: (["r:" + ty, "o:" + ty], ["r:" + ty, "di1"]), 2: ([], ["o:" + ty, "ds6f6b"])}
         msgs = [b"P 2 V,1", b"P 2.5 VPK", b"P 3 mVrms,2 KHZ", b"P? 1e3", b"Q? MAX", b"P 10 DBM;Q? 'x'", b"P (1,2:3),(@1!2);Q? #H10", b"P? 2.5;Q? 1,2", b"P DEF,UP;Q? 5 S"]
         out.append(mk(treegen.case_line("64", tsub, tsc, msgs), model=False))
-    for m in [b"NUM?;STR?", b"STR?;NUM?;NUM?", b"HDR?", b"THREE?", b"NUM?", b"ERRS?", b"NUM?;ERRS?", b"QUOT?", b"QUOT?;NUM?"]:
+    for m in [b"NUM?;STR?", b"STR?;NUM?;NUM?", b"HDR?", b"THREE?", b"NUM?", b"ERRS?", b"NUM?;ERRS?", b"QUOT?", b"QUOT?;NUM?", b"BLK?;NUM?", b"BLK?;BLK?", b"NUM?;BLK?;STR?", b"HH?", b"NUM?;HH?"]:
         out.append(mk(treegen.case_line("v", sub, sc, [m])))
         for cap in (range(0, 24) if b"ERRS" not in m else range(0, 80)):
             out.append(mk(treegen.case_line(str(cap), sub, sc, [m])))
@@ -63,12 +66,29 @@ def generate(rng, tier):
         out.append(mk(treegen.case_line("v", sub, tg.scripts, [m])))
         for cap in range(0, top + 1):
             out.append(mk(treegen.case_line(str(cap), sub, tg.scripts, [m])))
+    return out + dev_alloc_cases(rng, 40 if tier == "quick" else 600)
+
+
+def dev_alloc_cases(rng, n):
+    """the library's OWN handlers (scpi-contrib) under the counting allocator: response buffer and error queue are
+    pre-reserved, so any allocation during Node::run is the library's"""
+    import statuslib
+    out = []
+    m = statuslib.msg_step
+    out.append(mk("deva " + "|".join([m([b"FOO"]), m([b"*ESE 256"]), m([b"SYST:ERR:ALL?"]), m([b"*OPC;*OPC"]), m([b"SYST:ERR:COUN?;:SYST:ERR:NEXT?;:SYST:ERR:ALL?"]),
+                                      m([b"*IDN?;*STB?;*ESR?;*ESE?;*SRE?;*OPC?;*TST?"]), "t:p-330", m([b"*TST?"]), m([b"STAT:OPER?;COND?;ENAB 5;ENAB?;PTR?;NTR?;:STAT:PRES"]),
+                                      m([b"SYST:VERS?;ERR?"]), m([b"*CLS;*RST;*WAI"])]), model=False))
+    while len(out) < n:
+        h = statuslib.gen_history(rng, rng.choice([6, 12, 20]), {"common": 4, "reg": 2, "fail": 2, "tst": 0.5, "cond": 0.5})
+        if "2c22" in h: continue            # the harness' own *ERR <code>,"text" handler leaks its text: not the library's doing
+        out.append(mk("deva " + h[4:], model=False))
     return out
 
 
 def harness_line(c): return c["line"]
 def case_of_line(l):
     import re
+    if l.startswith("deva "): return mk(l, model=False)
     tys = re.findall(r"[roRO]:([a-z0-9]+)", l.split(" ")[3])
     return mk(l, model=all(t in treegen.PTY for t in tys))
 def coq_term(c): return treegen.coq_term(c["line"]) if c["model"] else '"SKIP"'
@@ -78,6 +98,10 @@ def obs(s): return " | ".join(" ".join(m.split(" ")[:4]) for m in s.split(" | ")
 def impl_oracle(c, r):
     if r is None: return "no result from harness"
     if r.startswith(("PANIC", "CRASH", "NOT-RUN", "HANG")): return "implementation panicked / died with a fixed-capacity buffer"
+    if c["line"].startswith("deva "):
+        for m in r.split(" | "):
+            if m.startswith("a=") and m != "a=0": return "heap allocation inside the library's own handlers / dispatcher during Node::run: " + m
+        return None
     cap = c["line"].split(" ")[1]
     if cap != "v":
         for m in r.split(" | "):
@@ -94,10 +118,10 @@ def spec_search(cases, lines, base, model_ok):
     ref = {}
     for c, ln, r in zip(cases, lines, base):
         f = ln.split(" ")
-        if f[1] == "v" and r: ref[" ".join(f[2:])] = r
+        if f[0] == "tree" and f[1] == "v" and r: ref[" ".join(f[2:])] = r
     for c, ln, r in zip(cases, lines, base):
         f = ln.split(" ")
-        if f[1] == "v" or not r: continue
+        if f[0] != "tree" or f[1] == "v" or not r: continue
         g = ref.get(" ".join(f[2:]))
         if not g: continue
         cap = int(f[1])
@@ -119,7 +143,9 @@ def nontrivial(c, impl):
 
 def distribution(cases, impl):
     d = {"runs": len(cases), "growable": 0, "bounded": 0, "overflowed": 0, "fitted_ok": 0, "max_capacity": 0}
+    d["contrib_device_histories_under_the_counting_allocator"] = sum(1 for c in cases if c["line"].startswith("deva "))
     for c, r in zip(cases, impl):
+        if c["line"].startswith("deva "): continue
         cap = c["line"].split(" ")[1]
         if cap == "v": d["growable"] += 1; continue
         d["bounded"] += 1; d["max_capacity"] = max(d["max_capacity"], int(cap))
